@@ -907,7 +907,7 @@ func (r *envelopingReader) prepareNext() error {
 			r.rw.reportError(err)
 			return err
 		}
-		r.current = io.LimitReader(r.r, int64(env.length))
+		r.current = &exactLengthReader{r: r.r, remaining: int64(env.length)}
 	}
 
 	if r.rw.op.serverEnveloper == nil {
@@ -1807,6 +1807,29 @@ func (l *limitWriter) Write(data []byte) (n int, err error) {
 		return 0, err
 	}
 	return l.buf.Write(data)
+}
+
+// exactLengthReader reads exactly the given number of bytes from r. Unlike
+// io.LimitReader, it reports io.ErrUnexpectedEOF if r ends early, so that a
+// truncated message is never mistaken for a complete one.
+type exactLengthReader struct {
+	r         io.Reader
+	remaining int64
+}
+
+func (e *exactLengthReader) Read(data []byte) (n int, err error) {
+	if e.remaining <= 0 {
+		return 0, io.EOF
+	}
+	if int64(len(data)) > e.remaining {
+		data = data[:e.remaining]
+	}
+	n, err = e.r.Read(data)
+	e.remaining -= int64(n)
+	if e.remaining > 0 && errors.Is(err, io.EOF) {
+		err = io.ErrUnexpectedEOF
+	}
+	return n, err
 }
 
 type hardLimitReader struct {
